@@ -55,7 +55,19 @@ class Gen:
         r = self.rng; k = r.random()
         url = r.choice(["http://example.com/", "http://example.com/a/b?x=1&y=2", "https://ex.org/p_q", "rel/path.html", "#frag"])
         title = r.choice(["-", "-", h("A title"), h("T & U")])
-        if k < 0.30: return self.text()
+        if k < 0.24: return self.text()
+        if k < 0.27:
+            # words with underscores and digits stay as they are, whatever the emphasis character
+            return "T" + h(r.choice(["snake_case_word", "step1_final_", "v1_beta_2", "a_b", "x_1", "_", "2_3_4", "file_name.txt"]))
+        if k < 0.30:
+            # emphasis written tight against punctuation: an apostrophe, a hyphen, brackets, a full stop
+            e = r.choice("ES") + " ( " + self.text() + " )"
+            form = r.randrange(5)
+            if form == 0: return "G ( %s P- %s )" % (e, h("s"))                      # _word_'s
+            if form == 1: return "G ( T%s %s )" % (h("well-"), e)                      # well-_known_
+            if form == 2: return "G ( %s T%s )" % (e, h("-baked"))                     # _half_-baked
+            if form == 3: return "G ( T%s %s T%s )" % (h("("), e, h(")."))            # (_word_).
+            return "G ( %s T%s )" % (e, h(r.choice([",", ".", ";", "!", "?"])))
         if k < 0.42: return self.emph()
         if k < 0.50: return "C" + h(r.choice(["code", "a&b", "x < y", "<tag>", "f(x)", "1 > 0", "say \"hi\"", "p*q*r", "u_v_w", "[not](link)"]))
         if k < 0.58: return "L ( " + " ".join([self.text()] + ([self.emph(1)] if r.random() < 0.3 else [])) + " ) " + h(url) + " " + title
